@@ -40,6 +40,8 @@ func agentLifeCmd(args []string) int {
 		}
 	} else if *mode == "stop" {
 		err = rig.StopRuns(*bin, base, emit)
+	} else if *mode == "window" {
+		err = rig.RealWindowRuns(base, emit)
 	} else if *mode == "outcome" {
 		err = rig.OutcomeRuns(*bin, base, emit)
 	} else {
